@@ -362,7 +362,7 @@ class Engine:
                 # attribute of an optional: must be some
                 self.require(st, "safe.none", n, ty.sort().is_some(base.t), "AttributeError")
                 return self.getattr(V(ty.t, ty.sort().v(base.t)), attr, n, st)
-            if isinstance(ty, TObj):
+            if isinstance(ty, (TObj, TData, TRec)):
                 k = self.reg.lookup_method(ty.name, attr)
                 if k is not None:
                     if getattr(k, "is_property", False):
@@ -402,6 +402,25 @@ class Engine:
 
     def wrap(self, ty, term):
         return V(ty, term)
+
+    def ev_test(self, n, st):
+        """truth value of an expression in a boolean context (if / while / conditional-expression test): `a and b` / `a or b` / `not a`
+        combine the TRUTHINESS of their operands (short-circuit: later operands are evaluated under the guard of the earlier ones)"""
+        if isinstance(n, ast.BoolOp):
+            is_and = isinstance(n.op, ast.And)
+            saved = len(st.guards)
+            terms = []
+            try:
+                for sub in n.values:
+                    t = self.ev_test(sub, st)
+                    terms.append(t)
+                    st.guards.append(t if is_and else z3.Not(t))
+            finally:
+                del st.guards[saved:]
+            return z3.And(*terms) if is_and else z3.Or(*terms)
+        if isinstance(n, ast.UnaryOp) and isinstance(n.op, ast.Not):
+            return z3.Not(self.ev_test(n.operand, st))
+        return self.truthy(self.ev(n, st), n)
 
     def ev_BoolOp(self, n, st):
         vals = []
@@ -448,7 +467,7 @@ class Engine:
         raise OutOfSubset(n, "unary op")
 
     def ev_IfExp(self, n, st):
-        c = self.truthy(self.ev(n.test, st), n.test)
+        c = self.ev_test(n.test, st)
         c = z3.simplify(c)
         if z3.is_true(c):
             return self.ev(n.body, st)
@@ -1203,6 +1222,18 @@ class Engine:
     def ev_Call(self, n, st):
         if isinstance(n.func, ast.Name) and n.func.id == "cast" and len(n.args) == 2 and "cast" not in st.env:
             return self.ev(n.args[1], st)  # typing.cast(T, x) is the identity; T is a type expression, not evaluated
+        if isinstance(n.func, ast.Attribute) and n.func.attr == "pop" and isinstance(n.func.value, (ast.Name, ast.Attribute)) and not self.spec_mode:
+            cur = self.ev(n.func.value, st)
+            if isinstance(cur, V) and isinstance(cur.ty, TSeq):
+                # value-returning list.pop() / list.pop(-1) inside an expression: yields the last element and shortens the receiver
+                if st.guards or self._comp_ctx:
+                    raise OutOfSubset(n, "list.pop() under a short-circuit guard or inside a comprehension")
+                from . import lib
+
+                last = V(cur.ty.elem, SQ.at(cur.t, SQ.length(cur.t) - 1))
+                new = lib.mutate(self, cur, "pop", [self.ev(a, st) for a in n.args], n, st)
+                self.assign(n.func.value, new, st, n)
+                return last
         f = self.ev_callee(n.func, st)
         args = []
         for a in n.args:
@@ -1271,7 +1302,7 @@ class Engine:
     def call_closure(self, f, args, kwargs, n, st):
         node = f.node
         if not isinstance(node, ast.Lambda):
-            raise OutOfSubset(n, "call of nested def (use its contract)")
+            return self.inline_def(f, args, kwargs, n, st)
         params = [a.arg for a in node.args.args]
         if len(params) != len(args) or kwargs or node.args.vararg:
             raise OutOfSubset(n, "lambda arity")
@@ -1282,6 +1313,59 @@ class Engine:
             return self.ev(node.body, st)
         finally:
             st.env = saved
+
+    def inline_def(self, f, args, kwargs, n, st):
+        """Call of a nested `def` without a contract of its own: its body is executed in place (loop-free bodies only).
+        Free variables are those of the enclosing function at the time of the CALL (Python cells), parameters and names
+        assigned in the body are local; mutations of enclosing containers (x.append(...)) are written back.  Branches in
+        the body split the path of the calling statement (NeedSplit propagates: single-path mode)."""
+        node = f.node
+        if any(isinstance(x, (ast.For, ast.While, ast.Yield, ast.YieldFrom, ast.Try, ast.With, ast.Nonlocal, ast.Global)) for x in ast.walk(node)):
+            raise OutOfSubset(n, f"nested def {node.name}: loops/try/yield/nonlocal in an inlined body (give it a contract)")
+        if st.guards or self._comp_ctx:
+            raise OutOfSubset(n, f"call of nested def {node.name} under a short-circuit guard or inside a comprehension")
+        a = node.args
+        if a.vararg or a.kwarg or a.kwonlyargs or a.posonlyargs or a.defaults:
+            raise OutOfSubset(n, f"nested def {node.name}: only plain positional parameters are inlined")
+        params = [x.arg for x in a.args]
+        if len(params) != len(args) or kwargs:
+            raise OutOfSubset(n, f"nested def {node.name}: arity")
+        local = set(params)
+        for x in ast.walk(node):
+            if isinstance(x, ast.Name) and isinstance(x.ctx, (ast.Store, ast.Del)):
+                local.add(x.id)
+        outer = st.env
+        inner = dict(outer)
+        for k in local:
+            inner.pop(k, None)
+        inner.update(zip(params, args))
+        st.env = inner
+        saved_mode = self._single_path
+        self._single_path = True
+        result = V(TNone, None)
+        try:
+            outs = self.exec_block(node.body, st)
+        finally:
+            self._single_path = saved_mode
+            cur = st.env
+            st.env = outer
+        if len(outs) != 1:
+            raise OutOfSubset(n, f"nested def {node.name}: {len(outs)} outcomes in single-path mode")
+        st2, out = outs[0]
+        if st2 is not st:
+            raise OutOfSubset(n, f"nested def {node.name}: state forked in single-path mode")
+        for k, v in cur.items():
+            if k not in local and k in outer and outer[k] is not v:
+                outer[k] = v          # an enclosing container mutated in place by the body
+        if out is None:
+            return result
+        if out[0] == "return":
+            return out[1]
+        if out[0] == "raise":
+            raise PyRaise(out[1], out[2], st=st)
+        raise OutOfSubset(n, f"nested def {node.name}: stray {out[0]}")
+
+    _single_path = False
 
     def apply_contract(self, k, args, kwargs, n, st):
         """Modular call: check `requires`, havoc the result, assume `ensures` (never the body)."""
@@ -1439,6 +1523,8 @@ class Engine:
             try:
                 results.extend(self._exec(stmt, cur))
             except NeedSplit as ns:
+                if self._single_path:
+                    raise               # inside an inlined nested def: the CALLING statement is re-executed with the decision
                 del self.obls[mark:]
                 for val in (True, False):
                     b = snap.fork()
@@ -1558,6 +1644,8 @@ class Engine:
             val = self.untup(val)
             if isinstance(val, V) and isinstance(val.ty, TRec) and val.ty.order:
                 val = tuple(self.getattr(val, f, node, st) for f in val.ty.order)
+            if isinstance(val, V) and isinstance(val.ty, TData) and getattr(val.ty, "unpack", False):
+                val = tuple(V(fty, val.ty.get(val.t, f)) for f, fty in val.ty.fields.items())     # namedtuple
             if not isinstance(val, tuple) or len(val) != len(tgt.elts):
                 raise OutOfSubset(node, "tuple assignment of non-tuple")
             for t, v in zip(tgt.elts, val):
@@ -1663,7 +1751,7 @@ class Engine:
         return [(st, ("raise", exc, s))]
 
     def ex_Assert(self, s, st):
-        c = self.truthy(self.ev(s.test, st), s.test)
+        c = self.ev_test(s.test, st)
         self.require(st, "safe.assert", s, c, "AssertionError")
         return [(st, None)]
 
@@ -1693,7 +1781,7 @@ class Engine:
         return [(st, None)]
 
     def ex_If(self, s, st):
-        c = self.truthy(self.ev(s.test, st), s.test)
+        c = self.ev_test(s.test, st)
         if self.branch(st, c):
             return self.exec_block(s.body, st)
         return self.exec_block(s.orelse, st)
@@ -1772,6 +1860,14 @@ class Engine:
                     tgts = [n.func.value]
                 elif isinstance(n, ast.NamedExpr):
                     tgts = [n.target]
+                elif isinstance(n, ast.Call) and isinstance(n.func, ast.Name) and n.func.id in self.nested_defs():
+                    # a nested def called in the loop body mutates enclosing containers in place (x.append(...) inside it)
+                    d = self.nested_defs()[n.func.id]
+                    dl = {a.arg for a in d.args.args} | {x.id for x in ast.walk(d) if isinstance(x, ast.Name) and isinstance(x.ctx, (ast.Store, ast.Del))}
+                    for m in ast.walk(d):
+                        if (isinstance(m, ast.Call) and isinstance(m.func, ast.Attribute) and m.func.attr in lib.MUTATORS
+                                and isinstance(m.func.value, ast.Name) and m.func.value.id not in dl):
+                            names.add(m.func.value.id)
                 for t in tgts:
                     for x in ast.walk(t):
                         if isinstance(x, ast.Name):
@@ -1783,6 +1879,11 @@ class Engine:
                     if isinstance(root, ast.Attribute) and isinstance(root.value, ast.Name):
                         attrs.add((root.value.id, self.mangle(root.attr)))
         return names, attrs
+
+    def nested_defs(self):
+        if getattr(self, "_nested", None) is None:
+            self._nested = {x.name: x for x in ast.walk(self.fn) if isinstance(x, ast.FunctionDef) and x is not self.fn}
+        return self._nested
 
     def havoc(self, st, names, attrs, body):
         has_yield = any(isinstance(n, (ast.Yield, ast.YieldFrom)) for s in body for n in ast.walk(s))
@@ -1954,9 +2055,9 @@ class Engine:
         for val in (True, False):
             b = body_st.fork()
             try:
-                cond = self.truthy(self.ev(s.test, b), s.test)
-            except NeedSplit:
-                raise OutOfSubset(s, "loop test needs a path split")
+                cond = self.ev_test(s.test, b)
+            except NeedSplit as ns:
+                raise OutOfSubset(s, f"loop test needs a path split on {str(ns.cond)[:200]}")
             b.assume(cond if val else z3.Not(cond))
             if self.feasible(b):
                 (entered if val else exited).append(b)
